@@ -415,6 +415,23 @@ class Engine:
             return list(self.self_impls.get((tr, self._CMP_DISPATCH[tr][seg], self._norm(st)), []))
         return []
 
+    def _accessor_paths(self, term):
+        """[(param index, field path)] when every in-crate callee of the call is a pure accessor: its summary returns
+        nothing but a pointer into one of its arguments"""
+        ids = self.callee_ids(term)
+        if not ids:
+            return None
+        out = set()
+        for c in ids:
+            sm = self.summaries.get(c)
+            if sm is None or not getattr(sm, "complete", False):
+                return None
+            if not sm.ret.s or any(ls for pth, ls in sm.ret.t.items() if pth != LEN and ls):
+                return None
+            for (k, path) in sm.ret.s:
+                out.add((k, tuple(path)))
+        return sorted(out)
+
     def aliases(self, view):
         """local -> set of (target local, field path) it may point to (flow-insensitive)."""
         key = view.id
@@ -518,6 +535,21 @@ class Engine:
                     if not mir.is_ptr_ty(locs[d]):
                         holders.add(d)
                     src = set()
+                    acc = self._accessor_paths(t)
+                    if acc is not None:
+                        # a pointer-returning accessor (`as_limbs_mut`, `as_ref`, ...): the result points into the
+                        # argument's pointee at the path its summary names
+                        for (k, path) in acc:
+                            if k - 1 < len(t["args"]) and t["args"][k - 1][0] in ("c", "m") and not t["args"][k - 1][1][1]:
+                                a0 = t["args"][k - 1][1][0]
+                                for (x, p2) in (al.get(a0) or {(a0, ())}):
+                                    src.add((x, (tuple(p2) + tuple(path))[:DEPTH]))
+                        if src:
+                            cur = al.setdefault(d, set())
+                            if not src <= cur:
+                                cur |= src
+                                changed = True
+                            continue
                     for a in t["args"]:
                         if a[0] in ("c", "m") and mir.is_ptr_ty(locs[a[1][0]]) and not a[1][1]:
                             tg = al.get(a[1][0]) or {(a[1][0], ())}
@@ -870,8 +902,13 @@ class Engine:
                     if ty.startswith("&mut ") or ty.startswith("*mut ") or "&mut " in ty[:12]:
                         v = st.get(i)
                         if v is not None:
-                            # what was written through the parameter: its tree minus its own identity
-                            outs[i] = v_join(outs.get(i), Val(dict(v.t), EMPTY))
+                            # what was written through the parameter: its tree minus its own identity; identities
+                            # of *other* parameters stored there (e.g. `*a = *b`) are dependences and are kept
+                            other = frozenset(x for x in v.s if x[0] != i)
+                            ov = Val(dict(v.t), EMPTY)
+                            if other:
+                                ov = v_join(ov, v_materialise(Val({}, other)))
+                            outs[i] = v_join(outs.get(i), ov)
         summ.ret = ret or Val()
         summ.outs = outs
         self.last_states = in_state
